@@ -615,13 +615,14 @@ def vanishes_when_renamed(ops, pool):
     return not q.failed
 
 
-def run_history(ctx, drv, label, ops=None, pool=None, length=0, classify=True):
+def run_history(ctx, drv, label, ops=None, pool=None, length=0, classify=True, record=None):
     """one history on the real interpreter, the Lean machine and the dict oracle.
     `ops` given: replay that list; otherwise generate `length` steps from ctx.rng."""
     real = Real()
     oracle = Machine()
     fixed = ops is not None
     done = []
+    outs = []
     if pool is None:
         pool = []
         for op in ops or []:
@@ -656,6 +657,7 @@ def run_history(ctx, drv, label, ops=None, pool=None, length=0, classify=True):
         obs = real.run_op(op)
         if exp is UNSPEC:
             oracle.adopt(op, obs)
+        outs.append(obs)
         dig = real.digest(oracle.vars)
         probes = []
         for name in oracle.ref_vars():
@@ -728,8 +730,121 @@ def run_history(ctx, drv, label, ops=None, pool=None, length=0, classify=True):
         if b:
             ctx.bump(b)
     ctx.bump("dictionaries-created", len(real.objs))
+    if record is not None and len(record) < 4 and len(done) >= 4:
+        record.append((list(done), list(outs)))
     ctx.count((label, json.dumps(done, sort_keys=True)), nontrivial=len(done) >= 2)
     ctx.sample(dict(kind=label, program=[klong_text(o) for o in done][:10]))
+
+
+# ----------------------------------------------------------------------------- kernel replay
+
+def _lq(s):
+    assert '"' not in s and "\\" not in s
+    return '"' + s + '"'
+
+
+def lean_key(k):
+    kind, p = k
+    if kind == "i":
+        return f"(.int ({int(p)}))"
+    if kind == "r":
+        num, den = float(p).as_integer_ratio()
+        return f"(.real ({num}) {den.bit_length() - 1})"
+    return f"(.{ {'c': 'chr', 's': 'str', 'y': 'sym'}[kind] } {_lq(_hex(p))})"
+
+
+def _lean_into(op):
+    return f"(some {_lq(op['into'])})" if op.get("into") else "none"
+
+
+def lean_op(op):
+    o = op["op"]
+    if o in ("lit", "deffn"):
+        ps = ", ".join(f"({lean_key(k)}, {_lq(val_tok(v))})" for k, v in op["ps"])
+        return f".{o} {_lq(op['x'] if o == 'lit' else op['f'])} [{ps}]"
+    if o == "call":
+        return f".call {_lq(op['x'])} {_lq(op['f'])}"
+    if o == "join":
+        v = op["v"]
+        a = f"(.var {_lq(v[1])})" if v[0] == "var" else f"(.data {_lq(val_tok(v))})"
+        return f".join {'true' if op['side'] == 'L' else 'false'} {_lq(op['d'])} {lean_key(op['k'])} {a} {_lean_into(op)}"
+    if o in ("remove", "find", "index"):
+        return f".{o} {_lq(op['d'])} {lean_key(op['k'])} {_lean_into(op)}"
+    if o == "indexmany":
+        return f".indexMany {_lq(op['d'])} [{', '.join(lean_key(k) for k in op['ks'])}]"
+    if o in ("size", "each"):
+        return f".{o} {_lq(op['d'])}"
+    if o == "alias":
+        return f".alias {_lq(op['x'])} {_lq(op['d'])}"
+    raise ValueError(o)
+
+
+def _split_top(s):
+    out, depth, cur = [], 0, ""
+    for ch in s:
+        if ch == "(":
+            depth += 1
+        elif ch == ")":
+            depth -= 1
+        if ch == ";" and depth == 0:
+            out.append(cur)
+            cur = ""
+        else:
+            cur += ch
+    if cur or out:
+        out.append(cur)
+    return out
+
+
+def _lean_val(tok):
+    if tok.startswith("D") and tok[1:].isdigit():
+        return f"(.ref {tok[1:]})"
+    return f"(.data {_lq(tok)})"
+
+
+def lean_out(op, tok):
+    """the real interpreter's result as a `Klong.C10.Out` term (Each: number of applications)"""
+    o = op["op"]
+    if tok == "KeyError":
+        return ".keyError"
+    if o == "deffn":
+        return ".fn" if tok == "fn" else None
+    if o == "size":
+        return f".num {tok[1:]}" if tok.startswith("n") else None
+    if o == "each":
+        return f".num {tok[1:].split(':')[0]}" if tok.startswith("P") else None
+    if o == "indexmany":
+        if not (tok.startswith("L(") and tok.endswith(")")):
+            return None
+        return ".vals [" + ", ".join(_lean_val(t) for t in _split_top(tok[2:-1])) + "]"
+    if tok == "U":
+        return ".undef"
+    if tok.startswith("raises") or tok.startswith("?"):
+        return None
+    return f".val {_lean_val(tok)}"
+
+
+def kernel_replay(ctx, recorded):
+    """per-run obligation: Lean's KERNEL (not the compiled driver) evaluates `Klong.C10.run` on
+    histories recorded from the real interpreter and must get the interpreter's results"""
+    if not recorded:
+        return
+    src_lines = ["import Klong.Model.C10", "open Klong.C10",
+                 "def projOut : Out → Out | .pairs ps => .num ps.length | o => o"]
+    n = 0
+    for ops, outs in recorded:
+        terms = [lean_out(o, t) for o, t in zip(ops, outs)]
+        if any(t is None for t in terms):
+            continue
+        n += 1
+        src_lines.append("example : (run init [" + ", ".join(lean_op(o) for o in ops) + "]).2.map projOut = ["
+                         + ", ".join(terms) + "] := by decide +kernel")
+    if n == 0:
+        return
+    ok, out = common.lean_run("\n".join(src_lines) + "\n", timeout=600)
+    ctx.obligation(f"kernel evaluation of Klong.C10.run on {n} histories recorded from the real interpreter", ok,
+                   out[-800:])
+    ctx.extra["kernel_replayed_histories"] = n
 
 
 # ----------------------------------------------------------------------------- entry
@@ -795,13 +910,16 @@ def run(ctx):
         "no dictionary and returns the bound value for a present integer key",
         "iteration order of Each is not constrained (results compared as sorted multisets, with the call count)",
     ]
+    recorded = []
     try:
         # 1. the recorded finding's witness, replayed on the real code on every run
         run_history(ctx, drv, "witness", ops=WITNESS_CHAR_SYM)
         ctx.extra["char_symbol_finding_reproduces"] = bool(ctx.known_hits) or any(
             f["key"] == KNOWN_CHAR_SYM for f in ctx.oracle_failures)
         # 2. corpus + built-in histories
-        for h in BUILTIN_HISTORIES:
+        for h in BUILTIN_HISTORIES[:2]:
+            run_history(ctx, drv, "builtin", ops=h, record=recorded)
+        for h in BUILTIN_HISTORIES[2:]:
             run_history(ctx, drv, "builtin", ops=h)
         cdir = common.CORPUS / "C10"
         if cdir.exists():
@@ -813,7 +931,8 @@ def run(ctx):
         maxlen = 12 if quick else 40
         for _ in range(nseq):
             pool = make_pool(ctx.rng)
-            run_history(ctx, drv, "seeded", pool=pool, length=ctx.rng.randrange(3, maxlen + 1))
+            run_history(ctx, drv, "seeded", pool=pool, length=ctx.rng.randrange(3, maxlen + 1), record=recorded)
+        kernel_replay(ctx, recorded)
     finally:
         if drv:
             drv.close()
